@@ -1,8 +1,9 @@
-(* C03 — Inline SQL selects exactly the rows the query means.  (pattern clause; the rest is decided by the executable
-   semantics Spec/QuerySem.v vs Spec/SqlSem.v on probe rows, see DESIGN 6/C03) *)
-Require Import Parser Render QuerySem SqlSem.
+(* C03 — Inline SQL selects exactly the rows the query means. *)
+Require Import Parser Render PgModel QuerySem SqlSem SqlFrag.
 Require Import SemPattern.
-From Coq Require Import List String.
+Require SqlParse SqlSemProof.
+From Coq Require Import List String ZArith.
+Import ListNotations.
 
 (* "* and ? match any run / any one character": for every wildcard pattern p without the characters % and _ and every string
    s, PostgreSQL's SIMILAR TO on the translated pattern (star to percent, question mark to underscore: the fixed translation of
@@ -12,4 +13,37 @@ Theorem C03_pattern_translation_preserves_meaning : forall p s : string,
   no_sql_wild p = true -> sim_match (translate p) s = wild_match p s.
 Proof. exact translate_preserves_meaning. Qed.
 
+(* Structure and leaves, for every tree of the filterable fragment (any nesting depth) and every row.
+   Spec/SqlFrag.tr e = Some (ts, a): ts is the SQL token sequence of e (what PostgreSQL's scanner makes of the text the renderer
+   writes: compared per case with PgModel.pg_lex of the implementation's output, correspondence SqlToks), a the expression it
+   should denote. Then (1) PostgreSQL's grammar, with its own precedences, reads exactly a from ts - the same Boolean
+   combination of the same leaf predicates as the query's own structure - and (2) a is true on exactly the rows on which the
+   query is true (+x means x, -x means NOT x, numbers compare numerically, strings as strings, * and ? as wildcards).
+   side: integers below 10^30 in absolute value (every int64), patterns free of SIMILAR TO's own metacharacters. *)
+Theorem C03_grammar_reads_the_query_structure : forall (e : Parser.expr) (ts : list tok) (a : ast),
+  tr e = Some (ts, a) -> pg_parse ts = Some a.
+Proof. exact SqlParse.tr_parses. Qed.
+
+Theorem C03_sql_true_on_exactly_the_rows_of_the_query : forall (r : row) (e : Parser.expr) (ts : list tok) (a : ast),
+  tr e = Some (ts, a) -> side e = true ->
+  pg_parse ts = Some a /\ ssem r [] a = qsem r e.
+Proof. intros r e ts a T S. split; [exact (SqlParse.tr_parses e ts a T)|exact (SqlSemProof.tr_sem r e ts a T S)]. Qed.
+
+(* the premises are met by a tree with every construct of the fragment: a must-clause over a range and a negated wildcard
+   pattern, OR a value list with a negative integer AND a prohibited quoted string, OR a comparison *)
+Definition lit (v : value) : Parser.expr := E v Literal VNil 0%Z 0%Z.
+Definition colv (f : string) : value := VExp (lit (VCol f)).
+Definition node (l : value) (op : operator) (r : value) : Parser.expr := E l op r 0%Z 0%Z.
+Definition sample_tree : Parser.expr :=
+  node (VExp (node (VExp (node (VExp (node (VExp (node (colv "n") Range (VBound (VExp (lit (VInt 1))) (VExp (lit (VInt 5))) true))) And
+                                      (VExp (node (VExp (node (colv "s") Like (VExp (E (VStr "w*") Wild VNil 0%Z 0%Z)))) Not VNil)))) Must VNil)) Or
+             (VExp (node (VExp (node (colv "k") Tables.In (VExp (node (VList [lit (VInt 3); lit (VInt (-4))]) Tables.List VNil)))) And
+                         (VExp (node (VExp (node (colv "t") Equals (VExp (lit (VStr "x y"))))) MustNot VNil))))))
+       Or (VExp (node (colv "m") GreaterEq (VExp (lit (VInt 7))))).
+Example C03_premises_are_satisfiable :
+  side sample_tree = true /\ exists ts a, tr sample_tree = Some (ts, a) /\ Nat.leb 40 (List.length ts) = true.
+Proof. split; [vm_compute; reflexivity|]. eexists; eexists; split; [vm_compute; reflexivity|vm_compute; reflexivity]. Qed.
+
 Print Assumptions C03_pattern_translation_preserves_meaning.
+Print Assumptions C03_grammar_reads_the_query_structure.
+Print Assumptions C03_sql_true_on_exactly_the_rows_of_the_query.
